@@ -1293,10 +1293,17 @@ fn c18_history<T: Elem, const N: usize>(seed: u64, idx: u64, ops: u64, mut trace
             pool[pi].1.retain(|k| k.0 != t);
         } else if op < 54 {
             let t = key(&mut rng);
-            what = format!("retain_mut(key+1; keep != {t})");
+            // half of the time the predicate replaces the whole element (old value dropped inside
+            // the closure, a new one with its own identity stored) before deciding
+            let replace = rng.chance(1, 2);
+            what = format!("retain_mut(key+1{}; keep != {t})", if replace { " by replacing the element" } else { "" });
             pool[pi].0.retain_mut(|e| {
                 let k = e.key().wrapping_add(1) % 4;
-                e.set_key(k);
+                if replace {
+                    *e = T::make(k);
+                } else {
+                    e.set_key(k);
+                }
                 k != t
             });
             pool[pi].1.retain_mut(|k| {
